@@ -94,22 +94,6 @@ impl PkgName {
 //@ end
 }
 
-pub proof fn lemma_last_sub_upto(cs: Seq<char>, lit: Seq<char>, upto: int)
-    requires upto <= cs.len() - lit.len()
-    ensures -1 <= last_sub_upto(cs, lit, upto), last_sub_upto(cs, lit, upto) <= upto || last_sub_upto(cs, lit, upto) == -1,
-        last_sub_upto(cs, lit, upto) >= 0 ==> lit.is_prefix_of(cs.skip(last_sub_upto(cs, lit, upto))),
-        forall|j: int| last_sub_upto(cs, lit, upto) < j <= upto && 0 <= j ==> !lit.is_prefix_of(cs.skip(j)),
-    decreases upto + 1
-{
-    if upto >= 0 && !(upto <= cs.len() && lit.is_prefix_of(cs.skip(upto))) { lemma_last_sub_upto(cs, lit, upto - 1); }
-}
-pub proof fn lemma_last_sub(cs: Seq<char>, lit: Seq<char>)
-    ensures -1 <= last_sub(cs, lit) <= cs.len() - lit.len() || last_sub(cs, lit) == -1,
-        last_sub(cs, lit) >= 0 ==> lit.is_prefix_of(cs.skip(last_sub(cs, lit))),
-        forall|j: int| last_sub(cs, lit) < j <= cs.len() - lit.len() && 0 <= j ==> !lit.is_prefix_of(cs.skip(j)),
-{
-    lemma_last_sub_upto(cs, lit, cs.len() - lit.len());
-}
 /// if v ends in "nb"+ds (ds digits), the last "nb" is that one
 pub proof fn lemma_nb_suffix_is_last(v: Seq<char>, ds: Seq<char>)
     requires ends_in_nb_digits(v, ds)
